@@ -42,8 +42,9 @@ package priority
 //@ event recv dsc.interrupter.C ()
 
 //@ event send dsc.err (e)
-//@   requires [C15] reported-error-is-the-divider-fault: gDivErr ==> e == ErrDividerBad
+//@   requires [C07 C15] reported-error-is-the-divider-fault: gDivErr ==> e == ErrDividerBad
 //@   requires [C07 C15] only-real-errors-are-sent: e != nil
+//@   requires [C07] error-only-after-a-divider-fault: gDivErr
 
 //@ event close dsc.output
 //@   requires [C07 C15] closes-only-when-nothing-is-in-flight: gInfl == 0
@@ -63,7 +64,7 @@ package priority
 //@   requires [C15] dividend-at-most-handlers-quantity: dividend <= gH
 //@   requires [C15] distribution-not-nil: distribution != nil
 //@   modifies content(distribution), gDivErr
-//@   ensures [C15] gDivErr <==> (old(gDivErr) || (msum(distribution) != old(msum(distribution)) && msum(distribution) - old(msum(distribution)) != dividend))
+//@   ensures [C07 C15] gDivErr <==> (old(gDivErr) || (msum(distribution) != old(msum(distribution)) && msum(distribution) - old(msum(distribution)) != dividend))
 
 // Well-formedness of the discipline state.
 //@ pred WF(dsc)
@@ -103,8 +104,9 @@ package priority
 //@   requires [* C01 C15] msum(distribution) == 0
 //@   modifies content(distribution), gDivErr
 //@   ensures [* C01] honest-or-error: result == nil ==> (msum(distribution) == 0 || msum(distribution) == dividend)
-//@   ensures [C15] fault-is-reported: (gDivErr && !old(gDivErr)) ==> result == ErrDividerBad
-//@   ensures [C15] old(gDivErr) ==> gDivErr
+//@   ensures [C07 C15] fault-is-reported: (gDivErr && !old(gDivErr)) ==> result == ErrDividerBad
+//@   ensures [C07 C15] error-only-on-fault: result != nil ==> gDivErr
+//@   ensures [C07 C15] old(gDivErr) ==> gDivErr
 
 //@ func (*Discipline).calcVacants
 //@   requires [*] WF(dsc)
@@ -190,18 +192,20 @@ package priority
 //@   requires [* C15] vacants <= gH
 //@   modifies content(dsc.tactic), dsc.uncrowded, anyelems(dsc.uncrowded), gDivErr
 //@   ensures [* C01] result1 == nil ==> (msum(dsc.tactic) == 0 || msum(dsc.tactic) == vacants)
-//@   ensures [C15] (gDivErr && !old(gDivErr)) ==> result1 == ErrDividerBad
-//@   ensures [C15] old(gDivErr) ==> gDivErr
+//@   ensures [C07 C15] (gDivErr && !old(gDivErr)) ==> result1 == ErrDividerBad
+//@   ensures [C07 C15] old(gDivErr) ==> gDivErr
 //@   ensures [*] dsc.uncrowded.arr == 0 || dsc.uncrowded.arr != dsc.priorities.arr
+//@   ensures [C07 C15] result1 != nil ==> gDivErr
 
 //@ func (*Discipline).calcTactic
 //@   requires [*] WF(dsc)
 //@   ensures [*] WF(dsc)
 //@   modifies content(dsc.tactic), dsc.uncrowded, anyelems(dsc.uncrowded), gDivErr
 //@   ensures [* C01] (result1 == nil && result0) ==> RINV(dsc)
-//@   ensures [C15] (gDivErr && !old(gDivErr)) ==> result1 == ErrDividerBad
-//@   ensures [C15] old(gDivErr) ==> gDivErr
+//@   ensures [C07 C15] (gDivErr && !old(gDivErr)) ==> result1 == ErrDividerBad
+//@   ensures [C07 C15] old(gDivErr) ==> gDivErr
 //@   ensures [*] dsc.uncrowded.arr == 0 || dsc.uncrowded.arr != dsc.priorities.arr
+//@   ensures [C07 C15] result1 != nil ==> gDivErr
 
 //@ func (*Discipline).getOneFeedback
 //@   requires [*] WF(dsc)
@@ -213,8 +217,190 @@ package priority
 //@   modifies content(dsc.tactic), content(dsc.actual), dsc.uncrowded, anyelems(dsc.uncrowded), gDivErr, gInfl, gInflP, gClock
 //@   ensures [*] WF(dsc)
 //@   ensures [* C01] result == nil ==> RINV(dsc)
-//@   ensures [C15] (gDivErr && !old(gDivErr)) ==> result == ErrDividerBad
-//@   ensures [C15] old(gDivErr) ==> gDivErr
+//@   ensures [C07 C15] (gDivErr && !old(gDivErr)) ==> result == ErrDividerBad
+//@   ensures [C07 C15] old(gDivErr) ==> gDivErr
 //@   loop 0
 //@     invariant [*] WF(dsc)
-//@     invariant [C15] gDivErr == old(gDivErr)
+//@     invariant [C07 C15] gDivErr == old(gDivErr)
+//@   ensures [C07 C15] result != nil ==> gDivErr
+
+//@ func (*Discipline).markInputAsDrained
+//@   requires [*] dsc != nil && dsc.inputs != nil
+//@   modifies content(dsc.inputs)
+//@   ensures [* C07] forall k :: dom(dsc.inputs, k) <==> (old(dom(dsc.inputs, k)) || k == priority)
+//@   ensures [* C07] forall k :: k != priority ==> dsc.inputs[k] == old(dsc.inputs[k])
+//@   ensures [* C07] dsc.inputs[priority].Drained && dsc.inputs[priority].Channel == old(dsc.inputs[priority].Channel)
+
+// DRAINED: a Drained flag is set only for an input that was observed closed.
+//@ pred DRAINED(dsc)
+//@   [C07] forall k :: (dom(dsc.inputs, k) && dsc.inputs[k].Drained) ==> in(gClosedIn, k)
+
+//@ func (*Discipline).send
+//@   requires [*] WF(dsc)
+//@   requires [* C01] RINV(dsc)
+//@   requires [* C01] dsc.tactic[priority] >= 1
+//@   requires [C07 C15] !gDivErr
+//@   requires [C07 C15] !gOutClosed
+//@   modifies content(dsc.tactic), content(dsc.actual), gInfl, gInflP, gClock
+//@   ensures [*] WF(dsc)
+//@   ensures [* C01] RINV(dsc)
+//@   ensures [* C01] result == 1 && msum(dsc.actual) == old(msum(dsc.actual)) + 1 && msum(dsc.tactic) == old(msum(dsc.tactic)) - 1
+//@   ensures [* C01] dsc.tactic[priority] == old(dsc.tactic[priority]) - 1 && (forall k :: k != priority ==> dsc.tactic[k] == old(dsc.tactic[k]))
+
+//@ func (*Discipline).io
+//@   requires [*] WF(dsc)
+//@   requires [* C01] RINV(dsc)
+//@   requires [C07 C15] !gDivErr
+//@   requires [C07 C15] !gOutClosed
+//@   requires [C07] DRAINED(dsc)
+//@   modifies content(dsc.tactic), content(dsc.actual), content(dsc.inputs), gInfl, gInflP, gClock, gClosedIn
+//@   ensures [*] WF(dsc)
+//@   ensures [* C01] RINV(dsc)
+//@   ensures [* C01] result == msum(dsc.actual) - old(msum(dsc.actual))
+//@   ensures [C07] DRAINED(dsc)
+//@   loop 0
+//@     invariant [*] WF(dsc)
+//@     invariant [* C01] RINV(dsc)
+//@     invariant [* C01] processed == msum(dsc.actual) - old(msum(dsc.actual))
+//@     invariant [C07] DRAINED(dsc)
+
+//@ func (*Discipline).iou
+//@   requires [*] WF(dsc)
+//@   requires [* C01] RINV(dsc)
+//@   requires [C07 C15] !gDivErr
+//@   requires [C07 C15] !gOutClosed
+//@   requires [C07] DRAINED(dsc)
+//@   modifies content(dsc.tactic), content(dsc.actual), content(dsc.inputs), gInfl, gInflP, gClock, gClosedIn
+//@   ensures [*] WF(dsc)
+//@   ensures [* C01] RINV(dsc)
+//@   ensures [* C01] result == msum(dsc.actual) - old(msum(dsc.actual))
+//@   ensures [C07] DRAINED(dsc)
+//@   loop 0
+//@     invariant [*] WF(dsc)
+//@     invariant [* C01] RINV(dsc)
+//@     invariant [* C01] processed == msum(dsc.actual) - old(msum(dsc.actual))
+//@     invariant [C07] DRAINED(dsc)
+
+//@ func (*Discipline).prioritize
+//@   requires [*] WF(dsc)
+//@   requires [* C01] RINV(dsc)
+//@   requires [C07 C15] !gDivErr
+//@   requires [C07 C15] !gOutClosed
+//@   requires [C07] DRAINED(dsc)
+//@   modifies content(dsc.tactic), content(dsc.actual), content(dsc.inputs), gInfl, gInflP, gClock, gClosedIn
+//@   ensures [*] WF(dsc)
+//@   ensures [* C01] RINV(dsc)
+//@   ensures [* C01] result == msum(dsc.actual) - old(msum(dsc.actual))
+//@   ensures [C07] DRAINED(dsc)
+//@   loop 0
+//@     invariant [*] WF(dsc)
+//@     invariant [* C01] RINV(dsc)
+//@     invariant [* C01] processed == msum(dsc.actual) - old(msum(dsc.actual))
+//@     invariant [C07] DRAINED(dsc)
+
+//@ func (*Discipline).recalcTactic
+//@   requires [*] WF(dsc)
+//@   requires [* C01] RINV(dsc)
+//@   modifies content(dsc.tactic), dsc.useful, anyelems(dsc.useful), gDivErr
+//@   ensures [*] WF(dsc)
+//@   ensures [* C01] result1 == nil ==> RINV(dsc)
+//@   ensures [C07 C15] (gDivErr && !old(gDivErr)) ==> result1 == ErrDividerBad
+//@   ensures [C07 C15] old(gDivErr) ==> gDivErr
+//@   ensures [C07 C15] gDivErr ==> result1 != nil || old(gDivErr)
+//@   ensures [C07 C15] result1 != nil ==> gDivErr
+
+//@ func (*Discipline).getLimitedFeedback
+//@   requires [*] WF(dsc)
+//@   modifies content(dsc.actual), gInfl, gInflP, gClock
+//@   ensures [*] WF(dsc)
+//@   loop 0
+//@     invariant [*] WF(dsc)
+
+//@ func (*Discipline).isZeroActual
+//@   requires [*] dsc != nil && dsc.actual != nil
+//@   ensures [* C07 C15] result <==> msum(dsc.actual) == 0
+//@   loop 0
+//@     invariant [*] forall k :: in($visited, k) ==> dsc.actual[k] == 0
+
+//@ func (*Discipline).isDrainedInputs
+//@   requires [*] dsc != nil && dsc.inputs != nil
+//@   ensures [* C07] result <==> (forall k :: dom(dsc.inputs, k) ==> dsc.inputs[k].Drained)
+//@   loop 0
+//@     invariant [*] forall k :: in($visited, k) ==> dsc.inputs[k].Drained
+
+//@ func (*Discipline).waitZeroActual
+//@   requires [*] WF(dsc)
+//@   modifies content(dsc.actual), gInfl, gInflP, gClock
+//@   ensures [*] WF(dsc)
+//@   ensures [* C07 C15] gInfl == 0
+//@   loop 0
+//@     invariant [*] WF(dsc)
+
+//@ func (*Discipline).base
+//@   requires [*] WF(dsc)
+//@   requires [C07 C15] !gDivErr
+//@   requires [C07 C15] !gOutClosed
+//@   requires [C07] DRAINED(dsc)
+//@   modifies content(dsc.tactic), content(dsc.actual), content(dsc.inputs), dsc.uncrowded, anyelems(dsc.uncrowded), dsc.useful, gDivErr, gInfl, gInflP, gClock, gClosedIn
+//@   ensures [*] WF(dsc)
+//@   ensures [C07 C15] gDivErr ==> result1 == ErrDividerBad
+//@   ensures [C07 C15] result1 == nil ==> !gDivErr
+//@   ensures [C07] DRAINED(dsc)
+//@   ensures [C07 C15] result1 != nil ==> gDivErr
+
+//@ func (*Discipline).loop
+//@   requires [*] WF(dsc)
+//@   requires [C07 C15] !gDivErr
+//@   requires [C07 C15] !gOutClosed
+//@   requires [C07] DRAINED(dsc)
+//@   modifies content(dsc.tactic), content(dsc.actual), content(dsc.inputs), dsc.uncrowded, anyelems(dsc.uncrowded), dsc.useful, gDivErr, gInfl, gInflP, gClock, gClosedIn
+//@   ensures [*] WF(dsc)
+//@   ensures [* C07 C15] gInfl == 0
+//@   ensures [C07 C15] gDivErr ==> result == ErrDividerBad
+//@   ensures [C07] result == nil ==> (forall k :: in(gPset, k) ==> in(gClosedIn, k))
+//@   ensures [C07 C15] result == nil ==> !gDivErr
+//@   ensures [C07 C15] result != nil ==> gDivErr
+//@   loop 0
+//@     invariant [*] WF(dsc)
+//@     invariant [C07 C15] !gDivErr
+//@     invariant [C07] DRAINED(dsc)
+
+//@ func (*Discipline).main
+//@   requires [*] WF(dsc)
+//@   requires [C07 C15] !gDivErr
+//@   requires [C07 C15] !gOutClosed
+//@   requires [C07] DRAINED(dsc)
+//@   modifies content(dsc.tactic), content(dsc.actual), content(dsc.inputs), dsc.uncrowded, anyelems(dsc.uncrowded), dsc.useful, gDivErr, gInfl, gInflP, gClock, gClosedIn, gOutClosed
+
+//@ func Opts.isValid
+//@   ensures [*] (result == nil) <==> (opts.Divider != nil && opts.HandlersQuantity != 0 && len(opts.Inputs) != 0)
+
+// prepare builds the tables of the discipline; a divider fault at creation is reported and
+// configurations in which some configured priority gets no handler are rejected (C15).
+//@ func prepare
+//@   requires [*] opts.Divider != nil && opts.HandlersQuantity >= 1
+//@   requires [*] gPset == domset(opts.Inputs) && gH == opts.HandlersQuantity && !gDivErr
+//@   modifies gDivErr
+//@   ensures [*] result3 == nil ==> (result0 != nil && result2 != nil && result0 != result2 && fresh(result0) && fresh(result2) && result1.arr != 0 && fresh(result1.arr))
+//@   ensures [*] result3 == nil ==> (strictlyDesc(result1) && allIn(result1, gPset))
+//@   ensures [*] result3 == nil ==> (forall k :: in(gPset, k) ==> dom(result0, k))
+//@   ensures [* C07] result3 == nil ==> (forall k :: dom(result0, k) ==> !result0[k].Drained)
+//@   ensures [C15] creation-fault-is-reported: gDivErr ==> result3 == ErrDividerBad
+//@   ensures [C15] every-configured-priority-has-a-share: result3 == nil ==> (forall k :: in(gPset, k) ==> result2[k] >= 1)
+//@   ensures [C07 C15] result3 == nil ==> !gDivErr
+//@   assume-arith append-len[3]
+//@   loop 0
+//@     invariant [*] inputs != nil && strategic != nil && inputs != strategic && fresh(inputs) && fresh(strategic) && priorities.arr != 0 && fresh(priorities.arr)
+//@     invariant [*] forall k :: dom(inputs, k) <==> in($visited, k)
+//@     invariant [*] forall a :: 0 <= a && a < len(priorities) ==> (in($visited, priorities[a]) && in(gPset, priorities[a]))
+//@     invariant [*] forall a, b :: 0 <= a && a < b && b < len(priorities) ==> priorities[a] != priorities[b]
+//@     invariant [* C07] forall k :: dom(inputs, k) ==> !inputs[k].Drained
+//@     invariant [*] msum(strategic) == 0
+
+// The ghost state of a discipline that does not exist yet is empty; gPset / gH name the
+// configuration. The feedback/output capacities are sizes the runtime can allocate.
+//@ func New
+//@   requires [*] ghost-initial-state: gInfl == 0 && (forall k :: gInflP[k] == 0) && !gDivErr && !gOutClosed && (forall k :: !in(gClosedIn, k)) && gPset == domset(opts.Inputs) && gH == opts.HandlersQuantity
+//@   modifies gDivErr
+//@   ensures [*] result1 == nil ==> result0 != nil
+//@   ensures [C15] creation-fault-is-reported: gDivErr ==> result1 == ErrDividerBad
